@@ -151,6 +151,31 @@ func parent(r *vlib.Run) {
 	r.Require("matched_kind_large", 50)
 	r.Require("matched_kind_garbage", 30)
 	r.Require("matched_kind_notimp", 30)
+	// reply classes composed by the cache's wire rungs, alternating on the slabs
+	r.Require("matched_kind_sized", 1500)
+	r.Require("matched_kind_fail", 400)
+	r.Require("matched_kind_failhit", 1500)
+	r.Require("matched_kind_nxcut", 800)
+	r.Require("matched_kind_ede", 500)
+	r.Require("cache_wire_failure_served", 600) // the RFC 9520 rung really composed replies in leased slabs
+	r.Require("cache_wire_dnssec_on_failure_served", 150)
+	r.Require("cache_wire_cut_served", 150) // the RFC 8020 rung (DNSSEC-on rounds only)
+	r.Require("cache_wire_served", 5000)
+	for _, tr := range []string{"udp", "tcp", "dot"} {
+		r.Require("headers_verified_failure_"+tr, map[string]int64{"udp": 800, "tcp": 150, "dot": 80}[tr])
+		r.Require("nxcut_authority_verified_"+tr, map[string]int64{"udp": 300, "tcp": 60, "dot": 30}[tr])
+		r.Require("ede_verified_"+tr, map[string]int64{"udp": 150, "tcp": 30, "dot": 15}[tr])
+	}
+	r.Require("headers_verified_udp", 20000)
+	r.Require("headers_verified_bare", 100)
+	// the drain-buffer sweep of the recycle phase
+	for _, tr := range []string{"tcp", "dot"} {
+		r.Require("stream_drain_fit_offsets_hit_"+tr, int64(2*sweepSpan+1))
+		r.Require("stream_drain_oversize_offsets_hit_"+tr, int64(2*sweepOversizeSpan+1))
+		r.Require("stream_bursts_crossing_drain_boundary_"+tr, int64(r.N(150, 600)))
+	}
+	r.Require("stream_bursts_crossing_drain_boundary", int64(r.N(300, 1200)))
+	r.Require("stream_sweep_bursts_all_served_from_cache_bytes", int64(r.N(300, 1200)))
 	r.Require("sent_kind_drop", 100)
 	r.Require("sent_kind_qr1", 100)
 	r.Require("sent_kind_denied", 20)
@@ -195,7 +220,8 @@ func phaseRounds(r *vlib.Run, portable bool) {
 	mk := func(i int, procs int, tight bool, w, q, conns int, scale float64) *roundSpec {
 		s := &roundSpec{Index: i, Procs: procs, Tight: tight, Workers: w, Queue: q, TCPConns: conns,
 			UDP: int(130 * scale), TCP: int(30 * scale), DoT: int(16 * scale), DoH: int(12 * scale), DoQ: int(10 * scale),
-			DeniedUDP: 4, DeniedTCP: 2, PerUDP: 44, PerStream: 44, PerMsg: 22, Groups: int(50 * scale), BurstMax: 16}
+			DeniedUDP: 4, DeniedTCP: 2, PerUDP: 50, PerStream: 50, PerMsg: 24, Groups: int(50 * scale), BurstMax: 16,
+			DNSSEC: i%2 == 0}
 		if tight {
 			s.BurstMax = 5
 		}
@@ -212,6 +238,7 @@ func phaseRounds(r *vlib.Run, portable bool) {
 		}
 		s := mk(90, 4, true, 2, 2, 12, 1.0)
 		s.Name = "portable"
+		s.DNSSEC = false
 		s.TCP, s.DoT, s.DoH, s.DoQ, s.DeniedTCP = 6, 4, 2, 2, 0
 		s.UDP = r.N(160, 400)
 		s.PortableAfter = s.UDP * s.PerUDP / 3
